@@ -541,6 +541,21 @@ func (u *Unit) evalCall(env *Env, e *Expr) Val {
 			}
 		}
 		return &Scalar{T: TFalse, Typ: types.Typ[types.Bool]}
+	case "keysWithin":
+		// keysWithin(m, "a", "b", ...): m is a map made by this activation whose keys are all constants from the list
+		v := u.eval(env, args[0])
+		if sc, ok := v.(*Scalar); ok && sc.Keys != nil && sc.Keys.known {
+			allowed := map[string]bool{}
+			for _, a := range args[1:] {
+				allowed[a.Name] = true
+			}
+			all := true
+			for k := range sc.Keys.ks {
+				all = all && allowed[k]
+			}
+			return &Scalar{T: BoolLit(all), Typ: types.Typ[types.Bool]}
+		}
+		return &Scalar{T: TFalse, Typ: types.Typ[types.Bool]}
 	case "eachDuration":
 		// eachDuration(opts, d): every time.Duration among the (statically known) elements of the option list equals d;
 		// false when the elements are not known
